@@ -39,7 +39,7 @@ StepEv(e) ==
             g5 == e.others_unchanged
             \* the plain case - unity gain, no quantization, linear curve, full window: the extreme inputs deliver the ends of
             \* the target's range (a mapped link does drive its target; the same fact RVSystem!SysFeed composes)
-            plain == e.gain = 256 /\ e.quant = 32768 /\ e.curve = "default" /\ {e.wmin, e.wmax} = {0, 32768} /\ e.kind = "range"
+            plain == e.out_offset = 0 /\ e.gain = 256 /\ e.quant = 32768 /\ e.curve = "default" /\ {e.wmin, e.wmax} = {0, 32768} /\ e.kind = "range"
             g6 == plain /\ g1 /\ g2 => LET a == e.rle[1][1]  b == e.rle[Len(e.rle)][1] IN
                      IF e.wmin = 0 THEN a = e.lo /\ b = e.hi ELSE a = e.hi /\ b = e.lo IN
         /\ Check(g6, "plain-feed-misses-range-ends", <<e.lo, e.hi>>, <<e.rle[1], e.rle[Len(e.rle)]>>)
